@@ -381,6 +381,63 @@ def rule_r4(chk, p, t):
         r.error("event-lists", f"{n_uses} uses of t_events / y_events found in the restart loops (2 confirmed by hand)")
 
 
+def rule_r5(chk, p, t):
+    r = chk.rule(
+        "C03.R5",
+        "no thrust state survives from one propagation call to the next",
+        3,
+        "a propagation is a function of the epoch, the state and the events it is given (composability, Kepler "
+        "exactness and conservation under TwoBody all presuppose it).  The derivative reads the instance attribute "
+        "`finite_thrust`; it is the only state the propagation writes on the dynamics object, so every call must start "
+        "by clearing it: Celestial._prepEvents assigns `self.finite_thrust = None` on EVERY path to each of its exits "
+        "(before a conditional re-arm), and propagate / propagateBulk call _prepEvents on every path before the "
+        "integrator runs.  A reset placed behind an early return leaves a burn of the previous call switched on in a "
+        "later call that has no events",
+        "the numbers; pickling boundaries of the parallel engine (which hide the carried state between steps)",
+    )
+    from rsa.cfg import cfg_of
+
+    cel = p.cls("resonaate.dynamics.celestial.Celestial")
+    pe = cel.methods.get("_prepEvents")
+
+    def reset():
+        cfg = cfg_of(pe)
+        resets = [n.id for n in cfg.nodes if n.kind == "stmt" and isinstance(n.ast, ast.Assign) and any(unparse(tg) == "self.finite_thrust" for tg in n.ast.targets) and isinstance(n.ast.value, ast.Constant) and n.ast.value.value is None]
+        if not resets:
+            r.violation(pe.qualname, "thrust-never-cleared", "_prepEvents never clears self.finite_thrust: a burn armed by an earlier propagation stays on", pe.loc())
+            return
+        exits = [n for n in cfg.nodes if n.kind == "return"] or [cfg.nodes[cfg.exit.id]]
+        bad = [x for x in exits if not cfg.must_pass(x.id, via_nodes=resets)]
+        if not any(n.kind == "return" for n in cfg.nodes) and not cfg.must_pass(cfg.exit.id, via_nodes=resets):
+            bad = [cfg.nodes[cfg.exit.id]]
+        if bad:
+            r.violation(
+                pe.qualname,
+                "thrust-reset-skipped",
+                f"_prepEvents can return (line {bad[0].lineno or pe.lineno}) without clearing self.finite_thrust: on that path a thrust armed by the "
+                "previous propagation call stays switched on, and the result of this call depends on what the object propagated before",
+                pe.loc(bad[0].ast) if bad[0].ast is not None else pe.loc(),
+            )
+        else:
+            r.ok(pe.qualname, f"self.finite_thrust = None on every path to each of the {len(exits)} exit(s)", pe.loc())
+
+    r.guard(pe.qualname, reset)
+    for nm in ("propagate", "propagateBulk"):
+        m = cel.methods.get(nm)
+
+        def calls(m=m, nm=nm):
+            cfg = cfg_of(m)
+            preps = [n.id for n in cfg.nodes if n.ast is not None and n.kind in ("stmt", "cond") and any(isinstance(c, ast.Call) and call_name(c) == "_prepEvents" for c in ast.walk(n.ast))]
+            solves = [n for n in cfg.nodes if n.ast is not None and n.kind in ("stmt", "cond", "return") and any(isinstance(c, ast.Call) and call_name(c) == "solve_ivp" for c in ast.walk(n.ast))]
+            require(solves, f"{nm} does not call solve_ivp", m.node)
+            if preps and all(cfg.must_pass(sv.id, via_nodes=preps) for sv in solves):
+                r.ok(m.qualname, "_prepEvents precedes the integrator on every path", m.loc())
+            else:
+                r.violation(m.qualname, "integrate-without-prep", f"{nm} can reach solve_ivp without calling _prepEvents first: the thrust state of an earlier call is not cleared", m.loc(solves[0].ast))
+
+        r.guard(m.qualname, calls)
+
+
 def run(chk, p, t):
     chk.explanation = (
         "Static decision of a deliberately narrow set of structural necessary conditions of C03: (R1) the strided "
@@ -391,7 +448,7 @@ def run(chk, p, t):
         "tolerance, Kepler exactness, energy / momentum conservation (integrator numerics)."
     )
     chk.assumptions += ["numpy ravel / reshape are row-major: element (i, k) of a (6, K) array is at index i K + k"]
-    for fn in (rule_r1, rule_r2, rule_r3, rule_r4):
+    for fn in (rule_r1, rule_r2, rule_r3, rule_r4, rule_r5):
         rid = "C03.R" + fn.__name__[-1]
         if not chk.wants(rid):
             continue
